@@ -118,6 +118,36 @@ class Gen:
         if s.kind in ARRS and (n + 1 > s.cap or (at and kk >= ip)): return      # own-refused
         s.items.insert(ip, s.items[kk]); s.grew()
 
+    def setelem(self, slot):
+        """set(x, i, get(x, k)); i = k (the element assigned to itself: String_Assign(s, s), fix 744a45f) in about half of the in-range cases"""
+        s = self.slots[slot]; n = len(s.items); r = self.rng
+        k = self.idx(n, 0.08); kk = self.norm(n, k)
+        if kk is not None and r.random() < 0.5: i = kk if r.random() < 0.5 else kk - n
+        else: i = self.idx(n, 0.08)
+        self.lines.append(f'setelem {slot} {i} {k}')
+        ii = self.norm(n, i)
+        if kk is None or ii is None: return
+        if s.kind in TUPS and ii != kk: return                                  # dup-refused
+        s.items[ii] = s.items[kk]
+
+    def remelem(self, slot, cmd='remelem'):
+        s = self.slots[slot]; n = len(s.items)
+        k = self.idx(n, 0.08); self.lines.append(f'{cmd} {slot} {k}')
+        kk = self.norm(n, k)
+        if cmd != 'remelem' or kk is None or s.kind == 'TK': return
+        vs = self.vals(s); del s.items[vs.index(vs[kk])]; s.shrank()
+
+    def concatelems(self, slot):
+        """concat(x, tuple(get(x, k1), get(x, k2))): executed by a List always and by an Array with room for two more records; refused alike by
+        harness and driver otherwise (KF-C04-push-own-element, site Array_Concat) and when k1, k2 name one element (the operand would be F13)"""
+        s = self.slots[slot]; n = len(s.items)
+        k1 = self.idx(n, 0.06); k2 = self.idx(n, 0.06)
+        self.lines.append(f'concatelems {slot} {k1} {k2}')
+        p1, p2 = self.norm(n, k1), self.norm(n, k2)
+        if p1 is None or p2 is None or p1 == p2 or s.kind in TUPS: return
+        if s.kind in ARRS and n + 2 > s.cap: return                             # own-refused
+        s.items += [s.items[p1], s.items[p2]]; s.grew()
+
     @staticmethod
     def norm(n, i):
         if 0 <= i < n: return i
@@ -174,10 +204,11 @@ class Gen:
         vs = self.vals(s)
         if v in vs: del s.items[vs.index(v)]; s.shrank()
 
-    def compatible(self, dst, src, concat):
+    def compatible(self, dst, src, concat, retype=False):
         d, s = self.slots[dst].kind, self.slots[src].kind
         if dst == src: return not concat                 # assign(x, x) is a no-op since fix a3140e4; concat(x, x) is a known finding
         if d in TUPS: return s in TUPS
+        if retype and not concat and s not in TUPS and (d in ARRS or s not in ('A12', 'A5')): return True     # assign takes over the element type of the source
         if d in ('AS', 'LS'): return s in ('AS', 'LS')
         if d in ('A12', 'A5'): return s == d
         return s in ('A', 'L') or (concat and s in TUPS)
@@ -213,7 +244,10 @@ class Gen:
         else:
             ys = self.vals(s)
             if cmd == 'concat': d.items += ys; d.grew()
-            else: d.items = list(ys); d.cap = len(ys)
+            else:
+                d.items = list(ys); d.cap = len(ys)
+                e = {'A': 0, 'L': 0, 'AS': 1, 'LS': 1, 'A12': 2, 'A5': 3}[s.kind]
+                d.kind = ('A', 'AS', 'A12', 'A5')[e] if d.kind in ARRS else ('L', 'LS')[e]
 
     def resize(self, slot, n=None):
         s = self.slots[slot]; m = len(s.items)
@@ -265,7 +299,7 @@ class Gen:
 
 
 WEIGHTS = [('push', 14), ('append', 3), ('pop', 9), ('pushat', 12), ('popat', 10), ('get', 8), ('set', 7), ('mem', 5), ('rem', 7),
-           ('concat', 3), ('assign', 2), ('assignf', 1.5), ('pushelem', 2.5), ('pushatelem', 3.5), ('copy', 1.5), ('resize', 2.5), ('sort', 3),
+           ('concat', 3), ('assign', 2), ('assignf', 1.5), ('pushelem', 2.5), ('pushatelem', 3.5), ('setelem', 3), ('remelem', 1.5), ('memelem', 1), ('concatelems', 2), ('reserve', 1), ('copy', 1.5), ('resize', 2.5), ('sort', 3),
            ('iter', 2), ('len', 1), ('del', 1), ('new', 2)]
 
 
@@ -282,10 +316,18 @@ def random_history(rng, nops, kinds, valmode, maxlen=60):
             if fs is None: continue
             k = rng.choice(kinds); g.new(fs, k, [g.elem(k) for _ in range(rng.choice([0, 1, 2, 3, 4, 7, 12]))]); continue
         slot = rng.choice(list(g.slots)); s = g.slots[slot]
-        if len(s.items) > maxlen and op in ('push', 'append', 'pushat', 'concat', 'pushelem', 'pushatelem'): op = rng.choice(['pop', 'popat', 'resize', 'rem'])
+        if len(s.items) > maxlen and op in ('push', 'append', 'pushat', 'concat', 'pushelem', 'pushatelem', 'concatelems'): op = rng.choice(['pop', 'popat', 'resize', 'rem'])
         if op == 'push': g.push(slot)
         elif op == 'pushelem': g.pushelem(slot)
         elif op == 'pushatelem': g.pushelem(slot, at=True)
+        elif op == 'setelem': g.setelem(slot)
+        elif op == 'remelem': g.remelem(slot)
+        elif op == 'memelem': g.remelem(slot, 'memelem')
+        elif op == 'concatelems': g.concatelems(slot)
+        elif op == 'reserve':
+            # an Array gets spare capacity (resize beyond the length only reserves), so that the own-element ops are executed, not refused
+            if s.kind in ARRS: g.resize(slot, len(s.items) + rng.randrange(1, 6))
+            else: g.resize(slot)
         elif op == 'assignf':
             cands = [x for x in g.slots if x != slot and g.compatible(slot, x, False)]
             # a non-empty Tuple target is the territory of KF-C04-tuple-assign-iter (items are appended): not generated
@@ -300,7 +342,7 @@ def random_history(rng, nops, kinds, valmode, maxlen=60):
         elif op == 'mem': g.mem(slot)
         elif op == 'rem': g.rem(slot)
         elif op in ('concat', 'assign'):
-            cands = [x for x in g.slots if g.compatible(slot, x, op == 'concat')]
+            cands = [x for x in g.slots if g.compatible(slot, x, op == 'concat', retype=(op == 'assign'))]
             if not cands: continue
             g.two(op, slot, rng.choice(cands))
         elif op == 'copy':
@@ -468,20 +510,26 @@ class C04(Spec):
                   'known finding F13 otherwise, with C04_tuple_mem_before_cycle for what survives); C04_*_out_of_range: the abstract "in range" is exactly what the code accepts; '
                   'C04_sort_perm / C04_sort_sorted: the middle-pivot Lomuto quicksort leaves a permutation, ordered for every strict partial order; C04_rem_first (all three types); '
                   'aliased arguments: assign(x, x) changes nothing (C04_self_assign, since fix a3140e4; the old code refuted), concat(x, x) and an Array\'s own element '
-                  'passed to push / push_at are known findings with _statement / _refuted / _partial theorems, the latter derived from the cells '
-                  '(C04_store_push_own_element); assign from an iterator-only source (C04_assign_iter_*: Tuple appends - known finding); Terminal stored as a Tuple '
+                  'passed to push / push_at or held by the operand of concat / assign (tuple(get(x, k), ...)) are known findings with _statement / _refuted / _partial '
+                  'theorems, the formulas derived from the cells (C04_store_push_own_element, C04_store_operand_own_elements); set / rem(x, get(x, k)) hold '
+                  '(C04_set_rem_own_element; String elements since fix 744a45f, the old code refuted); resize of a List beyond its length is in range only for element types '
+                  'whose zero record is a value (class ZeroIsValue; C04_list_resize_grow_refuted / _partial, C04_list_ub_iff_raw_grow: known finding KF-C04-list-resize-raw); assign from an iterator-only source (C04_assign_iter_*: Tuple appends - known finding); Terminal stored as a Tuple '
                   'element and Tuples that are not on the heap (C04_tuple_terminal_element, C04_tuple_not_on_heap). The store-level model is compared with the real '
                   'containers after every operation of thousands of generated histories (all index values, every growth and shrink step, duplicates, own elements as arguments, '
                   'iterator-only sources, adversarial sort inputs).')
     level_note = ('Trusted: Lean kernel; the hand-written store-level model lean/Cello/SeqStore.lean (+ Seq.lean, Sort.lean) is tied to the C code by testing only (white-box '
                   'differential runs under ASan/UBSan), not by proof; element types in the correspondence are Int, String, a 12-byte and a 5-byte record type, heap Tuples of Int objects. '
-                  'Not covered by generated inputs: concat(x, x), an Array\'s own element where the Array must grow or k >= i, assign(Tuple, filter) on a non-empty Tuple (known findings, '
-                  'modelled, refuted, with witnesses), Terminal stored as an element (theorem only), lengths >= 2^63, allocation failure.')
+                  'Not covered by generated inputs: concat(x, x), an Array\'s own element where the Array must grow or k >= i, an operand of pointers to own elements where the Array must grow '
+                  '(concat) or at all (assign), resize of a List<String> beyond its length, assign(Tuple, filter) on a non-empty Tuple (known findings, modelled, refuted, with witnesses); '
+                  'the store-level List versions of concat / assign with an operand of own-element pointers and set(x, i, get(x, k)) on cells are executed and compared, not proved; '
+                  'the quicksort is proved on an index-addressed array of items, not on the Option cells of the block, and its outcome `ok` is for element types with a positive size and the default byte-wise swap (a type with size 0 or its own Swap instance goes through TypeError / user code: not an element type of the model); Terminal stored as an element (theorem only), lengths >= 2^63, allocation failure.')
     rule = ('op files over 16 container slots of kinds Array<Int>, List<Int>, heap Tuple of Int objects, stack Tuple of Int objects (header AllocStack), Array<String>, List<String>, Array<Rec12>, Array<Rec5> '
             '(file-scope record types of 12 and 5 bytes with their own Cmp and no Swap/Assign instance: default byte-wise swap and assign, rounded Array stride; '
             'each value is encoded redundantly in the whole record so that a record assembled from two elements is detected): '
             '(a) random histories of all operations (indices uniform in -len..len-1 with 12% out of range, values from a 10-value domain / key*256+tag / wide) including '
-            'assign(x, x), push(x, get(x, k)) / push_at(x, get(x, k), i) aimed at spare capacity and k < i, assign from filter(src, all|even|none), '
+            'assign(x, x), push(x, get(x, k)) / push_at(x, get(x, k), i) aimed at spare capacity and k < i, set(x, i, get(x, k)) with i = k in half of the cases, rem / mem(x, get(x, k)), '
+            'concat(x, tuple(get(x, k1), get(x, k2))) (Arrays get spare capacity through `reserve` ops), assign between containers of different element types (the target changes kind), '
+            'assign from filter(src, all|even|none), '
             '(a\') index-locality histories with a silent oracle (#!quiet on), '
             '(b) growth sweeps push^n pop^n, front insertion and removal (every Reserve_More / Reserve_Less step up to n), '
             '(c) every index -len-2..len+2 for every length 0..L for push_at/pop_at/get/set and every kind, '
@@ -501,12 +549,15 @@ class C04(Spec):
                    'over storage it is growing); its witnesses run as `kfself` ops in a forked child. assign(x, x) IS generated (repaired by a3140e4)',
                    'an Array\'s own element as the argument of push / push_at is executed only outside known finding KF-C04-push-own-element (spare capacity, and k < i for '
                    'push_at); inside it harness and driver both print own-refused; witnesses run as `kfown` ops in a forked child',
+                   'concat(x, tuple(get(x, k1), get(x, k2))) on an Array is executed only with room for two more records (same finding, site Array_Concat; refused alike otherwise, and when k1, k2 '
+                   'name one element: the operand Tuple would be F13); assign with such an operand is never generated (Array_Clear / List_Clear free what the operand points to); witnesses `kfown concat|assign|lassign`',
                    'assign(t, filter(...)) is generated only for an empty Tuple t (known finding KF-C04-tuple-assign-iter: the items are appended to a non-empty Tuple)',
                    'Tuple elements are distinct objects (a Tuple holding the same pointer twice is known finding F13: iteration and mem do not terminate); '
                    'ops that would store a pointer a second time are refused by harness and driver alike (a pointer may replace itself with set)',
                    'Terminal is never stored as a Tuple element (covered by a theorem about the cell model only); Tuples that are not on the heap are exercised as kind TK',
                    'lengths and capacities stay below 2^63; allocation does not fail',
-                   'List<String> is never grown by resize (List_Resize creates String elements with a NULL buffer that no String operation accepts)',
+                   'List<String> is never grown by resize (known finding KF-C04-list-resize-raw: List_Resize links calloc\'ed String records with a NULL buffer that no String operation accepts; '
+                   'harness and driver print `resize unsupported`); witness op `kfraw` in a forked child',
                    'element objects are not mutated while they are in a container')
 
     def cases(self, rng, tier, boost=1):
